@@ -52,6 +52,17 @@ def main():
                                             density=rng.choice((0.05, 0.2, 0.5)))
                 if fmt == "mod":
                     s['restart'] = rng.choice((0x7f, 0x7f, 0, rng.randrange(0, len(s['orders']))))
+                if fmt == "mod" and i % 40 == 4:
+                    # a long Protracker module with a high Fxx early on: the loader asks the scan to compare CIA and VBlank timing (both
+                    # scans run, the shorter wins and the other's per-order data is thrown away or restored); 12 orders, more than 8 minutes
+                    s = modgen.random_flow_song(rng, "mod", vocab=('delay',), max_orders=12, max_pats=4, density=0.02)
+                    while len(s['orders']) < 12: s['orders'].append(rng.randrange(len(s['patterns'])))
+                    hi = rng.choice((0x20, 0x24, 0x28)) if rng.random() < 0.5 else rng.choice((0x48, 0x50, 0x60))      # VBlank wins / CIA wins
+                    p0 = s['patterns'][s['orders'][0]]
+                    p0[0][0] = dict(p0[0][0] or {}, fx=('speed', 31)); p0[1][0] = dict(p0[1][0] or {}, fx=('tempo', hi))
+                    pm = s['patterns'][s['orders'][7]]
+                    if pm is not p0: pm[5][1] = dict(pm[5][1] or {}, fx=('tempo', hi + 8))
+                    s['restart'] = 0x7f; s['speed'] = 6; s['bpm'] = 125
                 songs.append((fmt, s))
         paths = []
         for i, (fmt, s) in enumerate(songs):
@@ -161,6 +172,27 @@ def main():
                 if fmt == "corpus": ncorpus += 1
                 if len(ck.cov["samples"]) < 2:
                     ck.sample({"format": fmt, "orders": s.get('orders'), "model": res[:200], "impl_seq0": seq0})
+        # ---- every further sequence: reported duration vs the time rendered from its entry point until the loop counter increments
+        nseqs = 0
+        for i, (fmt, s) in enumerate(songs):
+            if i >= len(blocks): break
+            lines = blocks[i].strip().split("\n")
+            if not lines or not lines[0].startswith("HDR"): continue
+            hw = lines[0].split("|")[0].split(); tf = Fraction(float.fromhex(hw[6])) * Fraction(float.fromhex(hw[7]))
+            seqs = {int(l.split()[1]): (int(l.split()[2]), int(l.split()[3])) for l in lines if l.startswith("SEQ ")}
+            for l in lines:
+                if not l.startswith("SQ "): continue
+                w = l.split("|")[0].split(); k = int(w[1]); looped = w[3] == "1"; firstpos = int(w[4])
+                hist = [tuple(int(x) for x in t.split(":")) for t in l.split("|")[1].split()]
+                t = sum((tf / b * n for b, n in hist), Fraction(0)); tick = tf / 20
+                ck.count(); nseqs += 1; bad = None
+                if firstpos != seqs[k][0]: bad = "sequence %d: xmp_set_position(%d) played order %d first" % (k, seqs[k][0], firstpos)
+                elif not looped and sum(n for _, n in hist) < 59000: bad = "sequence %d: playback from its entry point ended without the loop counter incrementing" % k
+                elif looped and seqs[k][1] < INT_MAX and abs(seqs[k][1] - t) > tick + 1: bad = "sequence %d (entry point %d): reported duration %d ms, %s ms rendered until the loop counter incremented" % (k, seqs[k][0], seqs[k][1], float(t))
+                if bad:
+                    nd += 1
+                    ck.violation({"engine": "linear", "format": fmt, "song": s, "what": bad, "sequence": k,
+                                  "broken": "C18 on the implementation: duration reported for a sequence vs audio rendered from its entry point until the loop counter first increments"}, key="c18:%s:seq" % fmt)
         for (i, lines, tf) in direct:
             fmt, s = songs[i]
             ck.count()
@@ -181,7 +213,7 @@ def main():
                 ck.violation({"engine": "linear", "format": fmt, "song": s, "what": bad,
                               "broken": "C18 on a generated module whose loaded events the scan/player no longer keep inside the vocabulary: reported vs rendered time"},
                              key="c18:%s:direct" % fmt)
-        ck.engine_stat("linear", songs=len(songs), compared=len(meta), skipped=skipped, effect_hist=fxhist, disagreements=nd, corpus_modules_inside_vocabulary_compared=ncorpus)
+        ck.engine_stat("linear", songs=len(songs), further_sequences_played=nseqs, compared=len(meta), skipped=skipped, effect_hist=fxhist, disagreements=nd, corpus_modules_inside_vocabulary_compared=ncorpus)
     finally:
         shutil.rmtree(tmpd, ignore_errors=True)
     ck.cov["rule"] = ("generated MOD/XM/S3M/IT modules over the vocabulary (set speed 1..31, set tempo 32..255, pattern delay 0..15, position jump anywhere incl. beyond the list; "
